@@ -9,7 +9,9 @@ From AV Require Import Base.Prelude Gen.ReaderPrims Model.Reader Model.ReaderExt
 (* models of other properties, referred to by qualified name (their identifiers overlap) *)
 From AV Require Model.Cmap Proofs.CmapParseProofs Model.GlyfSubset Proofs.GlyfSubsetProofs
   Model.GlyfOutline Proofs.GlyfCompositeProofs Model.Type2 Proofs.Type2Proofs
-  Model.Preprocess Proofs.PreprocessTop.
+  Model.Preprocess Proofs.PreprocessTop
+  Model.Woff2 Proofs.Woff2Total Model.Tables Model.CffDict Proofs.CffDictProofs
+  Model.FeatureVariations Model.FeatureVariationsSpec Proofs.FeatureVariationsProofs.
 Open Scope Z_scope.
 
 (* binary reader: every program of reader operations over every buffer, debug and release *)
@@ -76,6 +78,28 @@ Print Assumptions C01_charstring_nesting_bounded.
 Theorem C01_preprocess_total : forall class cs tag, exists out, Preprocess.preprocess_text class cs tag = Ok out.
 Proof. exact PreprocessTop.never_panics. Qed.
 Print Assumptions C01_preprocess_total.
+
+(* WOFF2 transformed glyf: for EVERY byte string, in debug and release arithmetic, the decoder returns glyphs
+   or a ParseError: no overflow check fires, no index is out of range, BoundingBox::from_points is never
+   reached without points, the component loop ends (C11, after the repairs 33c9cfe 86608df 093eba0 aa2eefe) *)
+Theorem C01_woff2_glyf_total : forall m s, bytes_ok s = true -> Woff2Total.no_panic (Woff2.read_woff2_glyf m s).
+Proof. exact Woff2Total.read_woff2_glyf_total. Qed.
+Print Assumptions C01_woff2_glyf_total.
+
+(* CFF / CFF2 DICTs: Dict::read_dep on any byte string and any operand limit returns a DICT or an error (C15) *)
+Theorem C01_cff_dict_total : forall maxo b, bytes_ok b = true -> len b < USIZE ->
+  CffDictProofs.definite (CffDict.dict_read (Tables.table_ctxt b) maxo).
+Proof. exact CffDictProofs.dict_read_definite. Qed.
+Print Assumptions C01_cff_dict_total.
+
+(* feature variations: for any layout table bytes shorter than 2^32, once the FeatureVariations table was read
+   and a record chosen for a tuple, substituting the feature list never fails (C04) *)
+Theorem C01_feature_substitution_total : forall m d fvt tu fv t,
+  FeatureVariationsSpec.table_ok d -> FeatureVariations.layout_read_fv m d = Ok fvt ->
+  FeatureVariations.feature_variations m fvt tu = Ok fv ->
+  exists t', FeatureVariationsSpec.subst_layout m fv t = Ok t'.
+Proof. exact FeatureVariationsProofs.substituted_layout_exists. Qed.
+Print Assumptions C01_feature_substitution_total.
 
 (* non-vacuity: garbage in, error out *)
 Example C01_example_garbage :
